@@ -68,6 +68,49 @@ class OutOfDomain(Exception):
     """raised by run_case when a generated case is outside the property's domain"""
 
 
+class SetupViolation(Exception):
+    """raised while a check prepares its reference state when the code under test already breaks
+    the documented contract there (e.g. the index cache is not written where the docs say);
+    carries the discrepancy, which is reported like any other"""
+
+    def __init__(self, disc):
+        super().__init__(disc["kind"])
+        self.disc = disc
+
+
+class CaseTimeout(BaseException):
+    pass
+
+
+CASE_TIMEOUT_S = 300
+
+
+def call_run_case(prop, case):
+    """run_case under a watchdog (main thread of the worker); a case that does not come back is a
+    discrepancy ('did-not-terminate'), never a hang of the check"""
+    import signal
+
+    limit = getattr(prop, "CASE_TIMEOUT_S", CASE_TIMEOUT_S)
+
+    def handler(signum, frame):
+        raise CaseTimeout()
+
+    try:
+        old = signal.signal(signal.SIGALRM, handler)
+    except ValueError:  # not in the main thread
+        return prop.run_case(case)
+    signal.alarm(limit)
+    try:
+        return prop.run_case(case)
+    except SetupViolation as e:
+        return [e.disc]
+    except CaseTimeout:
+        return [harness.disc("did-not-terminate", "case", f"a result within {limit} s", "still running")]
+    finally:
+        signal.alarm(0)
+        signal.signal(signal.SIGALRM, old)
+
+
 def load_prop(pid):
     return importlib.import_module(f"vf.props.{pid.lower()}")
 
@@ -143,7 +186,7 @@ def judge(prop, case, discs, stats, open_known):
 def process_case(prop, case, stats, open_known):
     """run one case; returns the list of unknown discrepancies"""
     try:
-        discs = prop.run_case(case)
+        discs = call_run_case(prop, case)
     except OutOfDomain:
         stats.out_of_domain += 1
         return []
@@ -264,7 +307,7 @@ def shrink_bucket(prop, stage, seed_value, bucket, open_known, budget_s, example
         if time.monotonic() > deadline:
             return
         try:
-            discs = prop.run_case(case)
+            discs = call_run_case(prop, case)
         except OutOfDomain:
             return
         unknown = [d for d in discs if not known.match(prop.ID, case, d, open_known)]
@@ -431,7 +474,7 @@ def replay(pid, path):
     doc = harness.revive(json.loads(pathlib.Path(path).read_text()))
     case = doc["case"] if "case" in doc else doc
     open_known = known.open_entries(pid)
-    discs = prop.run_case(case)
+    discs = call_run_case(prop, case)
     unknown = [d for d in discs if not known.match(pid, case, d, open_known)]
     for d in discs:
         tag = "UNKNOWN" if d in unknown else "known"
